@@ -21,6 +21,7 @@ from vkit.world import eliot
 import eliot._output as _output
 
 ID = "C12"
+CASE_TIMEOUT = 3600  # one case is a whole schedule exploration
 LEVEL = "model_checking"
 DETERMINISM_REPLAY = False  # BFS is deterministic by construction; THR verifies replay itself
 RULE = (
